@@ -9,6 +9,10 @@ pub fn harness_dir() -> PathBuf {
     vrt::verif_dir().join("harness")
 }
 
+pub fn write_if_changed_pub(p: &Path, content: &str) {
+    write_if_changed(p, content)
+}
+
 fn write_if_changed(p: &Path, content: &str) {
     if std::fs::read_to_string(p).ok().as_deref() != Some(content) {
         std::fs::create_dir_all(p.parent().unwrap()).ok();
